@@ -204,6 +204,7 @@ type ProxyOpts struct {
 	Lifetime        time.Duration
 	Valid           time.Duration
 	Grace           time.Duration
+	GraceZero       bool // the grace period is switched off (SESSION_TTL_GRACEPERIOD=0s)
 	SignerKeyPEM    string
 	TemplateVars    map[string]string // nil = read the process environment like production
 	UpstreamTimeout time.Duration
@@ -314,6 +315,9 @@ func NewProxyEnv(o ProxyOpts) (*ProxyEnv, error) {
 	}
 	if o.Grace != 0 {
 		env["SESSION_TTL_GRACEPERIOD"] = o.Grace.String()
+	}
+	if o.GraceZero {
+		env["SESSION_TTL_GRACEPERIOD"] = "0s"
 	}
 	if o.Cluster != "" {
 		env["UPSTREAM_CLUSTER"] = o.Cluster
